@@ -345,9 +345,9 @@ PROPS['C17'] = {
              '`% bound`; statistical closeness of non-power-of-two bounds is not decided.',
 }
 PROPS['C20'] = {
-    'rules': [R(op.rule_OP1, modules=('finfields', 'gfpx')), R(op.rule_OP2), R(op.rule_OP5), R(op.rule_OP10)],
-    'floors': {'OP1': 15, 'OP2': 20, 'OP5': 4, 'OP10': 4},
-    'explanation': 'Binary and in-place shifts of every class apply the same operation with the same operand expression to the value (OP10). Operator-table clauses: for every class of finfields and gfpx the reflected operator of a non-commutative operation applies the same '
+    'rules': [R(op.rule_OP1, modules=('finfields', 'gfpx')), R(op.rule_OP2), R(op.rule_OP5), R(op.rule_OP10), R(op.rule_SR1, modules=('finfields',))],
+    'floors': {'OP1': 15, 'OP2': 20, 'OP5': 4, 'OP10': 4, 'SR1': 1},
+    'explanation': 'A negative exponent of matrix_pow is re-bound before its bits are scanned (SR1). Binary and in-place shifts of every class apply the same operation with the same operand expression to the value (OP10). Operator-table clauses: for every class of finfields and gfpx the reflected operator of a non-commutative operation applies the same '
                    'primitive with (other, self) order and is not an alias of the forward one; comparison mirrors swap (OP1). Every in-place '
                    'operator that writes self.value reduces it modulo the field modulus before returning self (or stores the result of the helper the '
                    'forward operator trusts), the constructors reduce, and binary operators build results through the reducing constructor (OP2). '
@@ -367,9 +367,9 @@ PROPS['C22'] = {
     'level': 'Static writer/reader agreement check over finfields. Decides the structural conditions for round trips for every field and length.',
 }
 PROPS['C23'] = {
-    'rules': [R(op.rule_OP1, modules=('gfpx',)), R(op.rule_OP4), R(op.rule_OP8), R(op.rule_OP9)],
-    'floors': {'OP1': 10, 'OP4': 25, 'OP8': 4, 'OP9': 2},
-    'explanation': 'Sibling clauses only: reflected polynomial operators apply the same primitive with swapped operands, comparison mirrors swap (OP1); '
+    'rules': [R(op.rule_OP1, modules=('gfpx',)), R(op.rule_OP4), R(op.rule_OP8), R(op.rule_OP9), R(op.rule_SR1, modules=('gfpx',))],
+    'floors': {'OP1': 10, 'OP4': 25, 'OP8': 4, 'OP9': 2, 'SR1': 1},
+    'explanation': 'A negative exponent of _powmod leaves or is re-bound before its bits are scanned (SR1). Sibling clauses only: reflected polynomial operators apply the same primitive with swapped operands, comparison mirrors swap (OP1); '
                    'every Polynomial primitive that touches the coefficient-list representation is overridden or aliased in BinaryPolynomial, and the '
                    'public wrappers hand their operands to the primitive of the same name in the same order (OP4). In both representations _mod and _divmod '
                    'hand the dividend back unreduced exactly under deg a < deg b, with the degree taken from the representation\'s own _degree (OP8): '
